@@ -125,9 +125,9 @@ theorem feed_ovl (p : Ovl) (o : Order) (r : Report) (hp : p.status = "6" ∨ p.s
 theorem ChainP_ovl (p : Ovl) (hp : p.status = "6" ∨ p.status = "E") (q : List Report) :
     ∀ o : Order, nonPending o → p.orig = o.clordId → ChainP o q →
       ChainP (ovl p o) q ∧ drain (ovl p o) q = ovl p (drain o q) ∧ nonPending (drain o q) ∧
-      (drain o q).clordId = o.clordId := by
+      (drain o q).clordId = o.clordId ∧ ((drain o q).status = o.status ∨ (drain o q).status ∈ bases) := by
   induction q with
-  | nil => intro o hn _ _; exact ⟨trivial, rfl, hn, rfl⟩
+  | nil => intro o hn _ _; exact ⟨trivial, rfl, hn, rfl, Or.inl rfl⟩
   | cons r q ih =>
     intro o hn hx hc
     obtain ⟨_, hben, hrest⟩ := hc
@@ -140,11 +140,19 @@ theorem ChainP_ovl (p : Ovl) (hp : p.status = "6" ∨ p.status = "E") (q : List 
       · exact hn
       · exact bases_nonPending hs
     have hcl : (feed o r).1.clordId = o.clordId := by rw [hfeed]
-    obtain ⟨i1, i2, i3, i4⟩ := ih (feed o r).1 hn' (hx.trans hcl.symm) hrest
-    refine ⟨⟨⟨false, by rw [hf]⟩, ?_, by rw [hf]; exact i1⟩, ?_, i3, i4.trans hcl⟩
+    have hst : (feed o r).1.status = s := by rw [hfeed]
+    obtain ⟨i1, i2, i3, i4, i5⟩ := ih (feed o r).1 hn' (hx.trans hcl.symm) hrest
+    refine ⟨⟨⟨false, by rw [hf]⟩, ?_, by rw [hf]; exact i1⟩, ?_, i3, i4.trans hcl, ?_⟩
     · intro hnp
       exact absurd hnp (by rcases hp with h | h <;> simp [nonPending, ovl, h])
     · simp only [drain]; rw [hf]; exact i2
+    · show (drain (feed o r).1 q).status = o.status ∨ (drain (feed o r).1 q).status ∈ bases
+      rcases i5 with h5 | h5
+      · rw [h5, hst]
+        rcases hs with rfl | ⟨hs, _⟩
+        · exact Or.inl rfl
+        · exact Or.inr hs
+      · exact Or.inr h5
 
 /-! ### the drained order against the exchange -/
 
